@@ -456,7 +456,7 @@ def run(tier):
     exe = build_vsched()
     syms = Symbols(exe)
     stats = {"schedules": 0, "points": 0, "max_points": 0, "outcomes": 0, "per_harness": [], "written": set(), "diags": set(), "h_outcomes": set(), "tsan_reports": None}
-    dl = core.Deadline(170 if tier == "quick" else 2400)
+    dl = core.Deadline(170 if tier == "quick" else 5400)
     part_s(tier, exe, syms, ev, findings, dl, stats)
     pool = core.Pool()
     try:
